@@ -139,6 +139,8 @@ def c02(pid, tier, seed):
             model="MC_Multi", extra=dict(MaxLog=2, TextOnlyNewline=True, ZombieAccounting="repaired")),
         fam("multi_zombie_cover", W=4, H=14, Multi=True, MaxBars=4, Pre=3, Once=True, Cover=True, D=11 if q else 15, BarOps=("finish", "drop", "tick"), MpOps=(),
             Tpls=("M",), Fins=("AndLeave",), M0="id", shards=12),
+        fam("multi_zombie_cover_wrapped", W=4, H=16, Multi=True, MaxBars=3, Pre=3, Once=True, Cover=True, D=9 if q else 11, BarOps=("finish", "drop", "tick", "mp_remove"), MpOps=(),
+            Tpls=("M",), Fins=("AndLeave",), M0="idw", shards=12),
         fam("multi_pty", W=6, H=10, Multi=True, MaxBars=2, D=4 if q else 5, BarOps=("tick", "set_message", "println", "finish", "drop", "mp_remove"),
             MpOps=("mp_println", "mp_clear"), MsgShapes=("a", "W1"), TextShapes=("T",), Fins=("AndLeave",), Tgt="pty", DTs=(0, 5000), M0="id", shards=12),
         fam("multi_limited", W=4, H=12, Multi=True, MaxBars=2, D=5 if q else 6, BarOps=("burst", "set_message", "finish", "drop", "tick"), MpOps=(),
